@@ -74,6 +74,19 @@ type Func struct {
 	Line     int
 	Asserts  map[string][]Clause // "assert at <label>"
 	Uses     []*cexpr.Node       // lemma / axiom instances assumed at every exit before the ensures
+	Regions  []*Region
+}
+
+// Region is a statement contract on one case clause of a large function.
+type Region struct {
+	Name    string
+	Path    []string // case-clause labels from the outside in; "label#k" selects the k-th match (0-based)
+	Parent  string
+	Lets    []Let
+	Assumes []Clause // assumed at the region entry (checked when a parent region reaches this entry)
+	Asserts []Clause // checked at every exit of the region
+	Uses    []*cexpr.Node
+	Line    int
 }
 
 // Sweep asks for thin safety-only contracts on every function matching a pattern.
@@ -125,7 +138,7 @@ var keywords = map[string]bool{
 	"readonly": true, "loop": true, "invariant": true, "variant": true, "let": true, "use": true,
 	"split": true, "ghost": true, "raises": true, "inline": true, "exact": true, "trusted": true,
 	"at": true, "assert": true, "assume": true, "lemma": true, "opt": true, "havoc": true, "with": true,
-	"pure": true, "keep": true, "end": true, "sweep": true,
+	"pure": true, "keep": true, "end": true, "sweep": true, "region": true, "parent": true,
 }
 
 // ParseFile reads a contract file. pkg is the package path the file belongs to.
@@ -180,6 +193,7 @@ func Parse(text, path, pkg string) (*File, error) {
 	var curCall *Call
 	var curLemma *Lemma
 	var curSweep *Sweep
+	var curRegion *Region
 	var curAssert string
 	_ = curAssert
 	perr := func(rc rawClause, e error) error { return fmt.Errorf("%s:%d: %v", path, rc.line, e) }
@@ -223,6 +237,7 @@ func Parse(text, path, pkg string) (*File, error) {
 			unit = rc.text
 		case "func":
 			curSweep = nil
+			curRegion = nil
 			cur = &Func{Key: rc.text, Pkg: pkg, Unit: unit, Loops: map[int]*Loop{}, Opts: map[string]string{}, File: path, Line: rc.line, Asserts: map[string][]Clause{}}
 			f.Funcs = append(f.Funcs, cur)
 			curLoop, curCall, curLemma = nil, nil, nil
@@ -352,6 +367,54 @@ func Parse(text, path, pkg string) (*File, error) {
 			}
 			if cur == nil {
 				return nil, perr(rc, fmt.Errorf("clause %q outside func", rc.kw))
+			}
+			if rc.kw == "region" {
+				k := strings.Index(rc.text, "=")
+				if k < 0 {
+					return nil, perr(rc, fmt.Errorf("region needs '='"))
+				}
+				curRegion = &Region{Name: strings.TrimSpace(rc.text[:k]), Line: rc.line}
+				for _, x := range strings.Split(rc.text[k+1:], " > ") {
+					curRegion.Path = append(curRegion.Path, strings.TrimSpace(x))
+				}
+				cur.Regions = append(cur.Regions, curRegion)
+				curLoop, curCall = nil, nil
+				continue
+			}
+			if rc.kw == "loop" {
+				curRegion = nil
+			}
+			if curRegion != nil {
+				switch rc.kw {
+				case "parent":
+					curRegion.Parent = rc.text
+					continue
+				case "let":
+					l, err := parseLet(rc)
+					if err != nil {
+						return nil, err
+					}
+					curRegion.Lets = append(curRegion.Lets, l)
+					continue
+				case "assume", "assert":
+					c, err := clause(rc)
+					if err != nil {
+						return nil, err
+					}
+					if rc.kw == "assume" {
+						curRegion.Assumes = append(curRegion.Assumes, c)
+					} else {
+						curRegion.Asserts = append(curRegion.Asserts, c)
+					}
+					continue
+				case "use":
+					ns, err := cexpr.ParseList(rc.text)
+					if err != nil {
+						return nil, perr(rc, err)
+					}
+					curRegion.Uses = append(curRegion.Uses, ns...)
+					continue
+				}
 			}
 			switch rc.kw {
 			case "ghost":
